@@ -1,7 +1,8 @@
 (** NumpyMidline: the numerical core of [lymph.models.Midline] ([midext_evo], [contra_state_dist_evo], [state_dist],
-    [obs_dist]) read with numpy's array semantics, line by line as the Python code is written ([np_<function>]), and the
-    STATIC proofs that these readings equal the hand-written model of Midline.v ([midext_evo], [contra_state_dist_evo],
-    [ml_state_dist], [ml_state_dist_central]) for every [ml] with [wf_midline ml = true].
+    [obs_dist], [_hmm_likelihood]) read with numpy's array semantics, line by line as the Python code is written
+    ([np_<function>]), and the STATIC proofs that these readings equal the hand-written model of Midline.v ([midext_evo],
+    [contra_state_dist_evo], [ml_state_dist], [ml_state_dist_central], [ml_hmm_likelihood_factors]) for every [ml] with
+    [wf_midline ml = true] (the likelihood needs two more hypotheses, stated in Section HmmLikelihood).
 
     Same architecture as NumpyPipelines.v (whose primitives and lemmas are reused): the source translator
     (harness/translate7.py) re-generates every [np_...] term from the Python source on every run and checks the generated
@@ -16,7 +17,9 @@
     What is NOT modelled: numpy raises (ValueError / IndexError) when shapes do not fit; the list primitives truncate or
     leave the array unchanged.  Under the hypotheses of the theorems all shapes fit (this is what the shape lemmas
     below establish: e.g. the in-place scaling by the (max_time + 1) x 1 column needs a state_dist_evo with exactly
-    max_time + 1 rows, the recursion writes rows 1 .. max_time of an array with max_time + 1 rows). *)
+    max_time + 1 rows, the recursion writes rows 1 .. max_time of an array with max_time + 1 rows; [marg += joint] adds
+    arrays of equal shape).  [matrix.fast_trace] is read as [Linalg.fast_trace] (tied to the source by the piece
+    fast_trace of harness/translate4.py, NumpyMatrix.np_fast_trace_eq). *)
 From LymphModel Require Import Base States Linalg Graph Transition Observation Dist Unilateral UniStatements Models
   Bilateral Midline BiStatements Numpy NumpyTransition TransitionProofs ObservationProofs PriorProofs MidlineProofs
   NumpyPipelines.
@@ -238,6 +241,9 @@ Proof.
   { unfold F, np_set_row, np_row, np_vadd, np_smul.
     replace (nth (length pre_e) (pre_n ++ r :: r' :: rows) []) with r by (rewrite <- Hl; symmetry; apply nth_middle).
     rewrite nth_middle, set_nth_app. cbn [set_nth]. rewrite <- app_assoc. reflexivity. }
+  change (fold_left F (seq (S (length pre_e)) (length rows))
+                 (F (pre_e ++ cur :: z :: repeat z (length rows)) (length pre_e))
+          = pre_e ++ cur :: ext_rows p T w (r' :: rows) (vecmat_w w (vadd (vscale p r) cur) T)).
   rewrite Hstep. unfold F.
   replace (pre_n ++ r :: r' :: rows) with ((pre_n ++ [r]) ++ r' :: rows) by (rewrite <- app_assoc; reflexivity).
   replace (S (length pre_e)) with (length (pre_e ++ [cur])) by (rewrite app_length; cbn [length]; lia).
@@ -274,3 +280,346 @@ Proof.
     exact (ext_loop (ml_midext ml) (transition_matrix (b_contra (ml_ext ml))) w (zeros w) rows r [] [] (zeros w) eq_refl).
   - rewrite (np_state_dist_evo_model _ He), !np_imul_s_vscale. reflexivity.
 Qed.
+
+(** * state_dist *)
+(** the value of Midline.state_dist in the model: the central model's joint (2-D), or the two slices (3-D), or
+    NotImplementedError for mode = "BN" *)
+Definition ml_state_dist_nd (ml : midline) (t : string) (hmm central : bool) : res nd :=
+  if central then bind (ml_state_dist_central ml t hmm) (fun m => inr (Nd2 m))
+  else if hmm then bind (ml_state_dist ml t) (fun sd => inr (Nd3 [fst sd; snd sd]))
+  else inl MNotImpl.
+
+Lemma np_transpose_evo T v k : np_transpose 0 (evo_rows T v k) = transpose_w (length v) (evo_rows T v k).
+Proof. destruct k; reflexivity. Qed.
+
+Theorem np_ml_state_dist_model ml t hmm central : wf_midline ml = true ->
+  np_ml_state_dist (uctx_of (b_contra (ml_noext ml))) (uctx_of (b_contra (ml_ext ml))) (uctx_of (b_ipsi (ml_ext ml)))
+                   (ml_maxt ml) (ml_midext ml) (ml_evo ml) (get_pmf (b_ipsi (ml_ext ml))) (ml_state_dist_central ml)
+                   t hmm central
+  = ml_state_dist_nd ml t hmm central.
+Proof.
+  intros Hwf. destruct (wf_midline_parts ml Hwf) as (Hi & He & Hn & Hme & Hmn & HS).
+  unfold np_ml_state_dist, ml_state_dist_nd. destruct central; [reflexivity|].
+  rewrite (np_contra_state_dist_evo_model ml Hwf).
+  unfold uctx_of. cbn [uc_T uc_sl uc_maxt]. rewrite (np_state_dist_evo_model _ Hi).
+  unfold ml_state_dist. destruct (contra_state_dist_evo ml) as [ne ee]. destruct hmm; [|reflexivity].
+  destruct (get_pmf (b_ipsi (ml_ext ml)) t) as [e|pm]; cbn [bind]; [reflexivity|].
+  cbv zeta. unfold np_empty3, np_set_slab. cbn [repeat set_nth fst snd].
+  unfold state_dist_evo. rewrite np_transpose_evo, onehot0_length. reflexivity.
+Qed.
+
+(** the two branches spelled out *)
+Corollary np_ml_state_dist_hmm ml t : wf_midline ml = true ->
+  np_ml_state_dist (uctx_of (b_contra (ml_noext ml))) (uctx_of (b_contra (ml_ext ml))) (uctx_of (b_ipsi (ml_ext ml)))
+                   (ml_maxt ml) (ml_midext ml) (ml_evo ml) (get_pmf (b_ipsi (ml_ext ml))) (ml_state_dist_central ml)
+                   t true false
+  = bind (ml_state_dist ml t) (fun sd => inr (Nd3 [fst sd; snd sd])).
+Proof. intros Hwf. apply (np_ml_state_dist_model ml t true false Hwf). Qed.
+Corollary np_ml_state_dist_central ml t hmm : wf_midline ml = true ->
+  np_ml_state_dist (uctx_of (b_contra (ml_noext ml))) (uctx_of (b_contra (ml_ext ml))) (uctx_of (b_ipsi (ml_ext ml)))
+                   (ml_maxt ml) (ml_midext ml) (ml_evo ml) (get_pmf (b_ipsi (ml_ext ml))) (ml_state_dist_central ml)
+                   t hmm true
+  = bind (ml_state_dist_central ml t hmm) (fun m => inr (Nd2 m)).
+Proof. intros Hwf. apply (np_ml_state_dist_model ml t hmm true Hwf). Qed.
+
+(** * obs_dist *)
+(** Midline.v has no definition for Midline.obs_dist; its value is the ext model's Bilateral.obs_dist
+    ([Bilateral.bi_obs_dist_of (ml_ext ml)]) of the 2-D array, resp. of each of the two slices of the 3-D array *)
+Definition ml_obs_dist_of (ml : midline) (sd : nd) : nd :=
+  match sd with
+  | Nd2 m => Nd2 (bi_obs_dist_of (ml_ext ml) m)
+  | Nd3 ms => Nd3 [bi_obs_dist_of (ml_ext ml) (nth 0 ms []); bi_obs_dist_of (ml_ext ml) (nth 1 ms [])]
+  end.
+Definition ml_obs_dist_nd (ml : midline) (t : string) (hmm central : bool) : res nd :=
+  bind (ml_state_dist_nd ml t hmm central) (fun sd => inr (ml_obs_dist_of ml sd)).
+
+Theorem np_ml_obs_dist_model ml t hmm central : wf_midline ml = true ->
+  np_ml_obs_dist (uctx_of (b_contra (ml_noext ml))) (uctx_of (b_contra (ml_ext ml))) (uctx_of (b_ipsi (ml_ext ml)))
+                 (ml_maxt ml) (ml_midext ml) (ml_evo ml) (get_pmf (b_ipsi (ml_ext ml))) (ml_state_dist_central ml)
+                 (bi_obs_dist_of (ml_ext ml)) None t hmm central
+  = ml_obs_dist_nd ml t hmm central
+  /\ forall sd,
+  np_ml_obs_dist (uctx_of (b_contra (ml_noext ml))) (uctx_of (b_contra (ml_ext ml))) (uctx_of (b_ipsi (ml_ext ml)))
+                 (ml_maxt ml) (ml_midext ml) (ml_evo ml) (get_pmf (b_ipsi (ml_ext ml))) (ml_state_dist_central ml)
+                 (bi_obs_dist_of (ml_ext ml)) (Some sd) t hmm central
+  = inr (ml_obs_dist_of ml sd).
+Proof.
+  intros Hwf. unfold np_ml_obs_dist, ml_obs_dist_nd. split.
+  - rewrite (np_ml_state_dist_model ml t hmm central Hwf).
+    destruct (ml_state_dist_nd ml t hmm central) as [e|[m|ms]]; reflexivity.
+  - intros [m|ms]; reflexivity.
+Qed.
+
+(** HMM, central = False: the observation distribution of each slice of the model's joint *)
+Corollary np_ml_obs_dist_hmm ml t : wf_midline ml = true ->
+  np_ml_obs_dist (uctx_of (b_contra (ml_noext ml))) (uctx_of (b_contra (ml_ext ml))) (uctx_of (b_ipsi (ml_ext ml)))
+                 (ml_maxt ml) (ml_midext ml) (ml_evo ml) (get_pmf (b_ipsi (ml_ext ml))) (ml_state_dist_central ml)
+                 (bi_obs_dist_of (ml_ext ml)) None t true false
+  = bind (ml_state_dist ml t) (fun sd =>
+      inr (Nd3 [bi_obs_dist_of (ml_ext ml) (fst sd); bi_obs_dist_of (ml_ext ml) (snd sd)])).
+Proof.
+  intros Hwf. rewrite (proj1 (np_ml_obs_dist_model ml t true false Hwf)).
+  unfold ml_obs_dist_nd, ml_state_dist_nd. destruct (ml_state_dist ml t) as [e|[a b]]; reflexivity.
+Qed.
+
+(** * _hmm_likelihood *)
+(** [try: BODY except AttributeError: pass]: the value of the variables BODY assigns, or their old value *)
+Definition np_except_attr {A} (body : res A) (dflt : A) : res A :=
+  match body with inl MAttr => inr dflt | other => other end.
+(** [A += B] for two 2-D arrays of equal shape *)
+Definition np_iadd2 (A B : mat) : mat := madd A B.
+
+(** the sub-models that hold a cohort ([getattr(self, "ext")], [getattr(self, "noext")], [self.unknown]) and their sides *)
+Inductive mlcase := CExt | CNoext | CUnknown.
+Inductive mlside := SIpsi | SContra.
+
+(** llh = 0.0 if log else 1.0
+    ipsi_dist_evo = self.ext.ipsi.state_dist_evo()
+    contra_dist_evo = {}
+    contra_dist_evo["noext"], contra_dist_evo["ext"] = self.contra_state_dist_evo()
+    t_stages = self.t_stages if for_t_stage is None else [for_t_stage]
+    for stage in t_stages:
+        diag_time_matrix = np.diag(self.get_distribution(stage).pmf)
+        num_states = ipsi_dist_evo.shape[1]
+        marg_joint_state_dist = np.zeros(shape=(num_states, num_states))
+        for case in ["ext", "noext"]:                                                  (unrolled)
+            joint_state_dist = ipsi_dist_evo.T @ diag_time_matrix @ contra_dist_evo[case]
+            marg_joint_state_dist += joint_state_dist
+            _model = getattr(self, case)
+            patient_llhs = matrix.fast_trace(_model.ipsi.diagnosis_matrix(stage),
+                                             joint_state_dist @ _model.contra.diagnosis_matrix(stage).T)
+            llh = utils.add_or_mult(llh, patient_llhs, log=log)
+        try:
+            marg_patient_llhs = matrix.fast_trace(self.unknown.ipsi.diagnosis_matrix(stage),
+                                                  marg_joint_state_dist @ self.unknown.contra.diagnosis_matrix(stage).T)
+            llh = utils.add_or_mult(llh, marg_patient_llhs, log=log)
+        except AttributeError:
+            pass
+    if self.use_central:
+        if log: llh += self.central.likelihood(log=log, t_stage=for_t_stage)
+        else:   llh *= self.central.likelihood(log=log, t_stage=for_t_stage)
+    return llh
+    [llh] is kept as the list of its factors (as in NumpyPipelines.np_hmm_likelihood): the neutral start value is the empty
+    list, add_or_mult appends, [llh += / *= central likelihood] appends the central model's factors.
+    [dm c s stage] = MODEL.SIDE.diagnosis_matrix(stage), the attribute access included (AttributeError when there is no
+    [unknown] model or no data in it); [central_likelihood t] = the factors of self.central.likelihood(log, t_stage=t) *)
+Definition np_ml_hmm_likelihood (noext_contra ext_contra ext_ipsi : uctx) (max_time : nat) (midext_prob : Qc)
+  (use_midext_evo : bool) (pmf_of : string -> res vec) (all_t_stages : list string)
+  (dm : mlcase -> mlside -> string -> res mat) (use_central : bool) (central_likelihood : option string -> res vec)
+  (for_t_stage : option string) : res vec :=
+  let llh : vec := [] in
+  let ipsi_dist_evo := np_state_dist_evo (uc_T ext_ipsi) (uc_sl ext_ipsi) (uc_maxt ext_ipsi) in
+  let '(cde_noext, cde_ext) := np_contra_state_dist_evo noext_contra ext_contra max_time midext_prob use_midext_evo in
+  let t_stages := match for_t_stage with None => all_t_stages | Some for_t_stage => [for_t_stage] end in
+  bind (fold_left (fun (acc : res vec) (stage : string) => bind acc (fun llh =>
+      bind (pmf_of stage) (fun x =>
+      let diag_time_matrix := np_diag x in
+      let num_states := np_shape1 ipsi_dist_evo in
+      let marg_joint_state_dist := np_zeros2 num_states num_states in
+      let joint_state_dist := np_matmul (np_matmul (np_transpose 0 ipsi_dist_evo) diag_time_matrix) cde_ext in
+      let marg_joint_state_dist := np_iadd2 marg_joint_state_dist joint_state_dist in
+      bind (dm CExt SIpsi stage) (fun a =>
+      bind (dm CExt SContra stage) (fun b =>
+      let patient_llhs := fast_trace a (np_matmul joint_state_dist (np_transpose 0 b)) in
+      let llh := llh ++ patient_llhs in
+      let joint_state_dist := np_matmul (np_matmul (np_transpose 0 ipsi_dist_evo) diag_time_matrix) cde_noext in
+      let marg_joint_state_dist := np_iadd2 marg_joint_state_dist joint_state_dist in
+      bind (dm CNoext SIpsi stage) (fun a =>
+      bind (dm CNoext SContra stage) (fun b =>
+      let patient_llhs := fast_trace a (np_matmul joint_state_dist (np_transpose 0 b)) in
+      let llh := llh ++ patient_llhs in
+      bind (np_except_attr
+              (bind (dm CUnknown SIpsi stage) (fun a =>
+               bind (dm CUnknown SContra stage) (fun b =>
+               let marg_patient_llhs := fast_trace a (np_matmul marg_joint_state_dist (np_transpose 0 b)) in
+               let llh := llh ++ marg_patient_llhs in
+               inr llh))) llh) (fun llh =>
+      inr llh))))))))
+    t_stages (inr llh)) (fun llh =>
+  if use_central then bind (central_likelihood for_t_stage) (fun x => let llh := llh ++ x in inr llh)
+  else inr llh).
+
+(** the instantiation of the readings with the model *)
+Definition side_uni (b : bilateral) (s : mlside) : uni := match s with SIpsi => b_ipsi b | SContra => b_contra b end.
+Definition side_patients (s : mlside) (data : list bpatient) : list patient :=
+  match s with SIpsi => map ipsi_patient data | SContra => map contra_patient data end.
+Definition ml_dm (ml : midline) (data : ml_data) (c : mlcase) (s : mlside) (stage : string) : res mat :=
+  match c with
+  | CExt => diagnosis_matrix (side_uni (ml_ext ml) s) (side_patients s (d_ext data)) (Some stage)
+  | CNoext => diagnosis_matrix (side_uni (ml_noext ml) s) (side_patients s (d_noext data)) (Some stage)
+  | CUnknown => match ml_unknown ml, d_unknown data with
+                | Some um, Some du => diagnosis_matrix (side_uni um s) (side_patients s du) (Some stage)
+                | _, _ => inl MAttr
+                end
+  end.
+Definition ml_use_central (ml : midline) : bool := match ml_central ml with Some _ => true | None => false end.
+Definition ml_central_likelihood (ml : midline) (data : ml_data) (t : option string) : res vec :=
+  match ml_central ml, d_central data with
+  | Some c, Some dc => bi_hmm_likelihood_factors c dc t
+  | _, _ => inl MAttr
+  end.
+
+(** ** errors of diagnosis_matrix: never AttributeError *)
+Lemma patient_encoding_err l m p e : patient_encoding l m p = inl e -> e = MValue.
+Proof.
+  unfold patient_encoding.
+  assert (G : forall acc, (forall e0, acc = inl e0 -> e0 = MValue) ->
+    fold_left (fun (acc : res bvec) m0 => bind acc (fun enc =>
+        match diag_get m0 (p_find p) with
+        | None => inr (kron_bvec enc (repeat true (Nat.pow 2 (length l))))
+        | Some pat => match compute_encoding l pat 2 with None => inl MValue | Some e1 => inr (kron_bvec enc e1) end
+        end)) m acc = inl e -> e = MValue).
+  { induction m as [|m0 m IH]; intros acc Hacc; cbn [fold_left]; [apply Hacc|].
+    apply IH. intros e0. destruct acc as [e1|enc]; cbn [bind].
+    - apply Hacc.
+    - destruct (diag_get m0 (p_find p)) as [pat|]; [|discriminate].
+      destruct (compute_encoding l pat 2); [discriminate|]. intros H. injection H as <-. reflexivity. }
+  apply G. intros e0 H. discriminate H.
+Qed.
+Lemma sequence_err {A} (P : merr -> Prop) : forall (l : list (res A)), (forall r e, In r l -> r = inl e -> P e) ->
+  forall e, sequence l = inl e -> P e.
+Proof.
+  induction l as [|r l IH]; intros H e; cbn [sequence]; [discriminate|].
+  destruct r as [e1|a] eqn:Er; cbn [bind].
+  - intros E. injection E as <-. apply (H (inl e1)); [left; reflexivity|reflexivity].
+  - destruct (sequence l) as [e2|t] eqn:Es; cbn [bind]; [|discriminate].
+    intros E. injection E as <-. apply (IH (fun r0 e0 Hin => H r0 e0 (or_intror Hin)) e2 eq_refl).
+Qed.
+Lemma diagnosis_matrix_err u data t e : diagnosis_matrix u data t = inl e -> e = MValue.
+Proof.
+  unfold diagnosis_matrix, data_matrix.
+  destruct (sequence (map (patient_encoding (u_lnls u) (u_mod_names u)) (select data t))) as [e1|D] eqn:Es; cbn [bind];
+    [|discriminate].
+  intros E. injection E as <-. refine (sequence_err (fun e0 => e0 = MValue) _ _ e1 Es). intros r e0 Hin ->.
+  apply in_map_iff in Hin. destruct Hin as [p [Hp _]]. apply (patient_encoding_err _ _ _ _ Hp).
+Qed.
+
+(** ** shapes *)
+Lemma vecmat_w_0_nil : forall (M : mat) v, Forall (fun r : vec => r = []) M -> vecmat_w 0 v M = [].
+Proof.
+  induction M as [|r M IH]; intros [|a v] H; cbn [vecmat_w zeros repeat]; try reflexivity.
+  inversion H; subst. rewrite IH by assumption. reflexivity.
+Qed.
+
+(** [J @ DM.T] with numpy's width (the number of rows of DM.T = the width of DM, lost when DM has no rows) is the model's
+    product with the explicit width N: for a DM without rows both are arrays with zero columns *)
+Lemma matmul_np_transpose N (J DM : mat) : Forall (fun r => length r = N) DM ->
+  np_matmul J (np_transpose 0 DM) = matmul J (transpose_w N DM).
+Proof.
+  intros H. destruct DM as [|r DM].
+  - change (np_matmul J (np_transpose 0 [])) with (matmul J []). unfold matmul. apply map_ext. intros v.
+    assert (Hn : ncols (transpose_w N []) = 0%nat) by (unfold transpose_w; destruct N; reflexivity).
+    rewrite Hn. cbn [ncols]. rewrite (vecmat_w_0_nil (transpose_w N [])); [destruct v; reflexivity|].
+    unfold transpose_w. apply Forall_forall. intros x Hx. apply in_map_iff in Hx. destruct Hx as [j [<- _]]. reflexivity.
+  - inversion H; subst. reflexivity.
+Qed.
+
+Lemma joint_shape ni ie pm (ce : mat) nc : Forall (fun r => length r = nc) ce -> ncols ce = nc ->
+  is_shape ni nc (joint_of_evos ni ie pm ce).
+Proof.
+  intros Hr Hc. unfold joint_of_evos, matmul. split.
+  - rewrite !map_length. unfold transpose_w. rewrite map_length, seq_length. reflexivity.
+  - apply Forall_forall. intros r Hin. apply in_map_iff in Hin. destruct Hin as [v [<- _]]. rewrite Hc.
+    apply vecmat_w_length. exact Hr.
+Qed.
+
+Lemma vadd_zeros_l : forall v : vec, vadd (repeat 0 (length v)) v = v.
+Proof. induction v as [|a v IH]; cbn [length repeat vadd map2]; [reflexivity|]. unfold vadd in IH. rewrite IH. f_equal. ring. Qed.
+Lemma madd_zeros_l c : forall (A : mat) r, is_shape r c A -> madd (np_zeros2 r c) A = A.
+Proof.
+  unfold np_zeros2, madd. induction A as [|row A IH]; intros r [Hl Hr]; cbn [length] in Hl; subst r; cbn [repeat map2];
+    [reflexivity|].
+  inversion Hr as [|? ? H1 H2]; subst. rewrite (IH (length A)) by (split; [reflexivity|exact H2]).
+  rewrite vadd_zeros_l. reflexivity.
+Qed.
+
+Lemma tab_shape {X} (f : nat -> X -> Qc) (Sx : list X) (L : list nat) : L <> [] ->
+  Forall (fun r => length r = length Sx) (map (fun t => map (f t) Sx) L) /\ ncols (map (fun t => map (f t) Sx) L) = length Sx.
+Proof.
+  intros HL. split; [|apply (ncols_tab f Sx L HL)].
+  apply Forall_forall. intros r Hr. apply in_map_iff in Hr. destruct Hr as [t [<- _]]. apply map_length.
+Qed.
+
+Lemma contra_evo_shape ml ne ee : wf_midline ml = true -> contra_state_dist_evo ml = (ne, ee) ->
+  let N := nstates (b_contra (ml_ext ml)) in
+  (Forall (fun r => length r = N) ne /\ ncols ne = N) /\ (Forall (fun r => length r = N) ee /\ ncols ee = N).
+Proof.
+  intros Hwf E. destruct (wf_midline_parts ml Hwf) as (Hi & He & Hn & Hme & Hmn & HS).
+  replace ne with (fst (contra_state_dist_evo ml)) by (rewrite E; reflexivity).
+  replace ee with (snd (contra_state_dist_evo ml)) by (rewrite E; reflexivity).
+  rewrite (contra_evo_tab ml Hwf). cbn [fst snd]. cbv zeta. rewrite nstates_length, HS.
+  assert (HL : seq 0 (S (ml_maxt ml)) <> []) by (cbn [seq]; discriminate).
+  split; apply tab_shape; exact HL.
+Qed.
+
+Section HmmLikelihood.
+  Variables (ml : midline) (data : ml_data).
+  Hypothesis Hwf : wf_midline ml = true.
+  (** both sides have the same number of LNLs (lymph builds them from one graph dictionary): [marg += joint] adds an
+      N_ipsi x N_contra array to an N_ipsi x N_ipsi array of zeros *)
+  Hypothesis Hsame : u_n (b_ipsi (ml_ext ml)) = u_n (b_contra (ml_ext ml)).
+  Hypothesis Hunk : forall um, ml_unknown ml = Some um -> wf_graphb (u_graph (b_contra um)) = true.
+
+  Theorem np_ml_hmm_likelihood_model t :
+    np_ml_hmm_likelihood (uctx_of (b_contra (ml_noext ml))) (uctx_of (b_contra (ml_ext ml))) (uctx_of (b_ipsi (ml_ext ml)))
+                         (ml_maxt ml) (ml_midext ml) (ml_evo ml) (get_pmf (b_ipsi (ml_ext ml))) (ml_t_stages ml)
+                         (ml_dm ml data) (ml_use_central ml) (ml_central_likelihood ml data) t
+    = ml_hmm_likelihood_factors ml data t.
+  Proof.
+    destruct (wf_midline_parts ml Hwf) as (Hi & He & Hn & Hme & Hmn & HS).
+    unfold np_ml_hmm_likelihood, ml_hmm_likelihood_factors.
+    rewrite (np_contra_state_dist_evo_model ml Hwf). unfold uctx_of. cbn [uc_T uc_sl uc_maxt].
+    rewrite (np_state_dist_evo_model _ Hi).
+    destruct (contra_state_dist_evo ml) as [ne ee] eqn:Ece. cbv zeta.
+    destruct (contra_evo_shape ml ne ee Hwf Ece) as [[Hne1 Hne2] [Hee1 Hee2]].
+    set (ie := state_dist_evo (b_ipsi (ml_ext ml))).
+    set (stages := match t with None => ml_t_stages ml | Some ts => [ts] end).
+    assert (HN : nstates (b_contra (ml_ext ml)) = nstates (b_ipsi (ml_ext ml))).
+    { unfold wf_midline in Hwf. rewrite !andb_true_iff in Hwf. destruct Hwf as [[[[Hbe _] _] _] _].
+      destruct (wf_bilateral_parts _ Hbe) as (_ & _ & _ & Hb). unfold nstates. rewrite Hb, Hsame. reflexivity. }
+    rewrite (fold_left_ext2 _ (fun (acc : res vec) (stage : string) => bind acc (fun llh =>
+               bind (ml_stage_factors ml data ie ne ee stage) (fun x => inr (llh ++ x))))).
+    - rewrite fold_bind_sequence. cbn [app].
+      destruct (sequence (map (ml_stage_factors ml data ie ne ee) stages)) as [e|ls]; cbn [bind]; [reflexivity|].
+      unfold ml_use_central, ml_central_likelihood. destruct (ml_central ml) as [c|]; [|reflexivity].
+      destruct (d_central data) as [dc|]; cbn [bind]; [|reflexivity].
+      destruct (bi_hmm_likelihood_factors c dc t); reflexivity.
+    - intros [e|llh] stage; cbn [bind]; [reflexivity|]. unfold ml_stage_factors.
+      destruct (get_pmf (b_ipsi (ml_ext ml)) stage) as [e|pm]; cbn [bind]; [reflexivity|]. cbv zeta.
+      assert (HJ : forall ce, np_matmul (np_matmul (np_transpose 0 ie) (np_diag pm)) ce
+                              = joint_of_evos (nstates (b_ipsi (ml_ext ml))) ie pm ce).
+      { intros ce. unfold ie, state_dist_evo. rewrite np_transpose_evo, onehot0_length. reflexivity. }
+      rewrite !HJ.
+      assert (HS1 : np_shape1 ie = nstates (b_ipsi (ml_ext ml))).
+      { unfold np_shape1, ie, state_dist_evo. rewrite ncols_evo_rows, onehot0_length. reflexivity. }
+      rewrite HS1.
+      set (je := joint_of_evos (nstates (b_ipsi (ml_ext ml))) ie pm ee).
+      set (jn := joint_of_evos (nstates (b_ipsi (ml_ext ml))) ie pm ne).
+      assert (Hmarg : np_iadd2 (np_iadd2 (np_zeros2 (nstates (b_ipsi (ml_ext ml))) (nstates (b_ipsi (ml_ext ml)))) je) jn
+                      = madd je jn).
+      { unfold np_iadd2. rewrite madd_zeros_l; [reflexivity|]. rewrite <- HN at 2. apply joint_shape; assumption. }
+      rewrite Hmarg. unfold bi_llhs_of_joint. cbn [ml_dm side_uni side_patients].
+      destruct (diagnosis_matrix (b_ipsi (ml_ext ml)) (map ipsi_patient (d_ext data)) (Some stage)) as [e|DMie];
+        cbn [bind]; [reflexivity|].
+      destruct (diagnosis_matrix (b_contra (ml_ext ml)) (map contra_patient (d_ext data)) (Some stage)) as [e|DMce] eqn:E1;
+        cbn [bind]; [reflexivity|].
+      rewrite (matmul_np_transpose (nstates (b_contra (ml_ext ml))) je DMce)
+        by (apply (diagnosis_matrix_rows _ _ _ _ He E1)).
+      destruct (diagnosis_matrix (b_ipsi (ml_noext ml)) (map ipsi_patient (d_noext data)) (Some stage)) as [e|DMin];
+        cbn [bind]; [reflexivity|].
+      destruct (diagnosis_matrix (b_contra (ml_noext ml)) (map contra_patient (d_noext data)) (Some stage)) as [e|DMcn] eqn:E2;
+        cbn [bind]; [reflexivity|].
+      rewrite (matmul_np_transpose (nstates (b_contra (ml_noext ml))) jn DMcn)
+        by (apply (diagnosis_matrix_rows _ _ _ _ Hn E2)).
+      destruct (ml_unknown ml) as [um|] eqn:Eum; [destruct (d_unknown data) as [du|]|];
+        cbn [np_except_attr bind]; try (rewrite <- !app_assoc; reflexivity).
+      destruct (diagnosis_matrix (b_ipsi um) (map ipsi_patient du) (Some stage)) as [e|DMiu] eqn:E3; cbn [bind].
+      { rewrite (diagnosis_matrix_err _ _ _ _ E3). reflexivity. }
+      destruct (diagnosis_matrix (b_contra um) (map contra_patient du) (Some stage)) as [e|DMcu] eqn:E4; cbn [bind].
+      { rewrite (diagnosis_matrix_err _ _ _ _ E4). reflexivity. }
+      cbn [np_except_attr bind].
+      rewrite (matmul_np_transpose (nstates (b_contra um)) (madd je jn) DMcu)
+        by (apply (diagnosis_matrix_rows _ _ _ _ (Hunk um eq_refl) E4)).
+      rewrite <- !app_assoc. reflexivity.
+  Qed.
+End HmmLikelihood.
